@@ -22,6 +22,8 @@ type Step struct {
 	MaxSize int    `json:"max_size,omitempty"`
 	// Run > 0: that many consecutive in-order packets of SSRC starting at Seq, 1 ms apart from AtNS on, with a report of up to MaxSize bytes after every 400
 	Run int `json:"run,omitempty"`
+	// Reports > 0 (with Report): that many reports in a row, 100 ms apart from AtNS on, each of up to MaxSize bytes (streams that stay silent for a long time)
+	Reports int `json:"reports,omitempty"`
 }
 
 // refUnwrapper extends 16-bit sequence numbers by the nearest-value rule (steps here stay below 2^15), never below zero.
@@ -313,6 +315,19 @@ func run(steps []Step) (err error, reports int, classes map[string]bool) {
 
 			continue
 		}
+		if st.Reports > 0 {
+			for k := 0; k < st.Reports; k++ {
+				one := Step{Report: true, AtNS: st.AtNS + int64(k)*100_000_000, MaxSize: st.MaxSize}
+				rp := r.BuildReport(at(one.AtNS), one.MaxSize)
+				reports++
+				if e := rm.check(rp, one); e != nil {
+					return fmt.Errorf("step %d (report %d of %d in a row, report #%d): %w", i, k+1, st.Reports, reports, e), reports, rm.classes
+				}
+			}
+			rm.classes["many-reports-in-a-row"] = true
+
+			continue
+		}
 		var rep *rtcp.CCFeedbackReport
 		o := kit.Guard(0, func() { rep = r.BuildReport(at(st.AtNS), st.MaxSize) })
 		if !o.OK() {
@@ -352,7 +367,7 @@ func genHistory(t *rapid.T) []Step {
 		rapid.IntRange(2, 5), rapid.Just(0), rapid.IntRange(-20, -1), rapid.IntRange(50, 300), rapid.IntRange(-300, -20),
 	)
 	dclock := rapid.OneOf(
-		rapid.SampledFrom([]int64{0, 1, 976_562, 976_563, 1_000_000, 20_000_000, 1_000_000_000, 7_996_000_000, 7_997_070_312, 7_998_046_875, 8_000_000_000, 10_000_000_000, 63_990_000_000, 64_000_000_000, 70_000_000_000, 3_600_000_000_000}),
+		rapid.SampledFrom([]int64{0, 1, 976_562, 976_563, 1_000_000, 20_000_000, 1_000_000_000, 7_996_000_000, 7_997_070_312, 7_998_046_875, 8_000_000_000, 10_000_000_000, 63_990_000_000, 64_000_000_000, 70_000_000_000, 3_600_000_000_000, 86_400_000_000_000, 9_010_000_000_000_000}), // ... an hour, a day, 104.3 days (2^63/1024 ns)
 		rapid.SampledFrom([]int64{1_000_000, 1_000_000, 5_000_000, 20_000_000}),
 		rapid.Int64Range(0, 50_000_000),
 	)
@@ -377,7 +392,12 @@ func genHistory(t *rapid.T) []Step {
 			continue
 		}
 		if rapid.IntRange(0, 11).Draw(t, "rep") == 0 {
-			steps = append(steps, Step{Report: true, AtNS: clock, MaxSize: maxSize.Draw(t, "max")})
+			st := Step{Report: true, AtNS: clock, MaxSize: maxSize.Draw(t, "max")}
+			if rapid.IntRange(0, 29).Draw(t, "manyReports") == 0 { // more than a minute of reports without a packet
+				st.Reports = rapid.IntRange(590, 720).Draw(t, "reportsInARow")
+				clock += int64(st.Reports) * 100_000_000
+			}
+			steps = append(steps, st)
 
 			continue
 		}
@@ -414,7 +434,7 @@ func TestRecorderReports(t *testing.T) {
 		}
 		h := kit.NewH()
 		for _, s := range steps {
-			h.U(uint64(s.SSRC), uint64(s.Seq), uint64(s.AtNS), uint64(s.MaxSize), uint64(s.Run)) //nolint:gosec
+			h.U(uint64(s.SSRC), uint64(s.Seq), uint64(s.AtNS), uint64(s.MaxSize), uint64(s.Run), uint64(s.Reports)) //nolint:gosec
 		}
 		var cl []string
 		for c := range classes {
